@@ -4,9 +4,12 @@ CONSTANTS
   MaxOps = 7
   MaxRedirects = 2
   FixOnce = TRUE
-  MaxVals = 3
+  MaxVals = 2
   HookDepth = 2
   OwnBytes = TRUE
   Nodes = {"a", "b"}
   ConnConfig = "live"
+  BareUpdate = "refused"
+  Sizes = {0}
+  ReadLimit = 0
 CHECK_DEADLOCK FALSE
